@@ -235,9 +235,11 @@ def check_open(ctx, c17, t, T, F, N, dsl, csl, via, cw=1.0, centre=1284.0):
         v4.cleanup(x)
     want_ok = n > 0 and (csl is None or nc > 0)
     fallback = via != 'meta' and nc != ncd
-    if (code == 0) != want_ok:
+    if want_ok and code != 0:
+        # (an EMPTY preselection that is accepted is compared with the model only: the statement just wants it not
+        # answered wrongly)
         ctx.disagree('what=open_accepts;via=%s;keys=%s' % (via, '+'.join(sorted(pre))), case, [code, msg[:80]], None,
-                     'a valid preselection with dumps and channels left was refused, or an empty one accepted', spec=int(want_ok))
+                     'a valid preselection with dumps and channels left was refused', spec=1)
     mo = None
     if ctx.model_ok:
         src = [c17.wire_timing(t), T, N, q(centre), q(bw), [] if via == 'meta' else [F]]
@@ -267,8 +269,9 @@ def check_open(ctx, c17, t, T, F, N, dsl, csl, via, cw=1.0, centre=1284.0):
             if impl['freqs'] != want_f or impl['cw'] != Fraction(bw) / N or impl['spw'][0] != 0 or impl['spw'][2] != ncd \
                     or impl['spw'][3] != 1:
                 ctx.disagree('what=channel_count_fallback;via=%s' % via, case, [float(v) for v in impl['freqs'][:4]], None,
-                             'metadata and data disagree on the channel count: the window must take the data count, keep '
-                             'the channel width and sideband, centre 0 Hz', spec=[float(v) for v in want_f[:4]])
+                             'metadata and data disagree on the channel count: the window takes the data count, keeps '
+                             'the channel width and sideband, centre 0 Hz (documented fallback of VisibilityDataV4)',
+                             spec=[float(v) for v in want_f[:4]], kind='tie')
         if via != 'meta' and impl['shape'] != [n, ncd]:
             ctx.disagree('what=open_shape;via=%s' % via, case, impl['shape'], None,
                          'shape of the opened data set is not (dumps kept, channels kept)', spec=[n, ncd])
@@ -387,7 +390,8 @@ def check_vfw(ctx, c06, c17, case, via='direct'):
         fx6.rmtree(tmp)
     if n_ts != T:
         ctx.disagree('what=dump_count;%s' % feats, rcase, n_ts, None,
-                     'the data set does not have as many dumps as the longest of its arrays (flag stream / L0)', spec=T)
+                     'the data set does not have as many dumps as the longest of its arrays (flag stream / L0)', spec=T,
+                     kind='tie')
     # ---- property: preselected == selected, observable by observable
     for nm in ('ts', 'freqs', 'vis', 'weights', 'flags', 'bflags'):
         if o_pre[nm].shape != o_sel[nm].shape or not np.array_equal(o_pre[nm], o_sel[nm]):
@@ -679,7 +683,8 @@ def check_v4_names(ctx, c17, t, sub_band, sub_product):
         want = ['KeyError', '']
     if got != want:
         ctx.disagree('what=v4_window_names', case, got, None,
-                     'product / band of the data set\'s spectral window differ from sub_product / band_map[sub_band]', spec=want)
+                     'product / band of the data set\'s spectral window differ from sub_product / band_map[sub_band]', spec=want,
+                     kind='tie')
     if ctx.model_ok:
         mo = ctx.model([[173, [4, q(1284.0), q(16.0), 4, [codes(sub_product)],
                                codes(sub_band)]]])[0]
@@ -774,7 +779,11 @@ def check_cbf_chain(ctx, c17, t, drop, T=3):
         fx6.rmtree(tmp)
     want_p = t['cbf'] if drop is None else None
     want_ts = c17.spec_py(dict(t, cbf=want_p), 0, T)
-    if got_p != want_p or got_ts != want_ts:
+    # the period itself is still in the telstate when a LATER link of the chain is missing: the statement is then
+    # satisfied by the documented behaviour (treated as lite) and also by a data set corrected with that period
+    period_known = drop is not None and 'src_streams' in present and present['src_streams'] and 'corr_int_time' in present
+    alt_ok = period_known and got_p == t['cbf'] and got_ts == c17.spec_py(t, 0, T)
+    if (got_p != want_p or got_ts != want_ts) and not alt_ok:
         ctx.disagree('what=cbf_period;drop=%s;start=%s' % ('none' if drop is None else drop[0] + ':' + drop[1], c17.where(t)),
                      case, [got_p] + [float(v) for v in got_ts[:2]], None,
                      'CBF dump period / timestamps: a complete attribute chain must give the period (and the correction '
